@@ -231,8 +231,47 @@ pub fn very_deep() -> BoxedStrategy<Case> {
     })
 }
 
+/// Han keyword-fragment names (see gen::han_fragment_names) in every position a name can
+/// take: alone, in a sentence, as subject / predicate / component / element, with a prefix
+pub fn han_fragments() -> Vec<Case> {
+    let mut out = vec![];
+    let other = D::word("b");
+    for n in gen::han_fragment_names() {
+        for k in [Word, IVar, DVar, QVar, Op] {
+            let a = D::atom(k, &n);
+            let terms = vec![
+                a.clone(),
+                D::node(Inh, vec![a.clone(), other.clone()]),
+                D::node(Inh, vec![other.clone(), a.clone()]),
+                D::node(Sim, vec![a.clone(), other.clone()]),
+                D::node(Product, vec![a.clone(), other.clone()]),
+                D::node(Product, vec![other.clone(), a.clone()]),
+                D::node(SetExt, vec![a.clone()]),
+                D::node(SetInt, vec![other.clone(), a.clone()]),
+                D::node(Neg, vec![a.clone()]),
+                D::image(ImgExt, 1, vec![other.clone(), a.clone()]),
+            ];
+            for t in terms {
+                out.push((fmts::HAN, ND::Term(t.clone())));
+                if k == Word {
+                    out.push((fmts::HAN, ND::Sentence(SD { term: t.clone(), punct: P::Judgement, stamp: St::Eternal, truth: vec![] })));
+                    out.push((fmts::HAN, ND::Task(TD { budget: vec![F::of(0.5)], s: SD { term: t, punct: P::Question, stamp: St::Present, truth: vec![] } })));
+                }
+            }
+        }
+    }
+    out
+}
+
 pub fn streams() -> Vec<Box<dyn AnyStream>> {
     vec![
+        Box::new(Stream::<Case> {
+            name: "han-fragments",
+            quick: 0,
+            thorough: 0,
+            source: Source::Enum(Box::new(|_| Box::new(han_fragments().into_iter()))),
+            check: Box::new(check),
+        }),
         Box::new(Stream::<Case> {
             name: "small-scope",
             quick: 0,
